@@ -402,6 +402,9 @@ func (e *Engine) mergeInto(dst *State, outs []Out, results *types.Tuple) Value {
 		merged.mem[k] = t
 	}
 	for _, o := range live {
+		for k := range o.st.readSet {
+			merged.readSet[k] = true
+		}
 		for k := range o.st.moved {
 			merged.moved[k] = true
 		}
@@ -506,6 +509,15 @@ func (e *Engine) callFunc(fn *types.Func, recv Value, args []Value, cx *ast.Call
 	// interface method
 	if sig := fn.Type().(*types.Signature); sig.Recv() != nil {
 		if _, isIface := sig.Recv().Type().Underlying().(*types.Interface); isIface {
+			if rt, ok := recv.(VTerm); ok {
+				if dt, ok := e.dynType[rt.T.String()]; ok {
+					if obj, _, _ := types.LookupFieldOrMethod(dt, true, nil, fn.Name()); obj != nil {
+						if cm, ok := obj.(*types.Func); ok {
+							return e.callFunc(cm, VTerm{T: rt.T, Typ: dt}, args, cx, st)
+						}
+					}
+				}
+			}
 			n := sig.Recv().Type()
 			name := "?"
 			if nn, ok := n.(*types.Named); ok {
@@ -646,6 +658,7 @@ func (e *Engine) callContract(c *Contract, fn *types.Func, recvName string, recv
 			unsup("named function %s passed as value at %s", nf.Fn.Name(), where)
 		}
 		names[sig.Params().At(i).Name()] = a
+		names[fmt.Sprintf("p%d", i)] = a
 	}
 	tpkg := fn.Pkg()
 	callee := c.Pkg + "." + c.Key
@@ -729,7 +742,22 @@ func (e *Engine) callContract(c *Contract, fn *types.Func, recvName string, recv
 	var results []Value
 	for i := 0; i < isig.Results().Len(); i++ {
 		rt := isig.Results().At(i).Type()
-		v := e.freshValue(fmt.Sprintf("%s.r%d", sanitize(c.Key), i), rt, st)
+		var v Value
+		if c.Pure && !isChan(rt) {
+			if _, isSl := rt.Underlying().(*types.Slice); isSl {
+				unsup("pure contract with slice result")
+			}
+			var as []*Term
+			if recv != nil {
+				as = append(as, term(recv))
+			}
+			for _, a := range args {
+				as = append(as, term(a))
+			}
+			v = e.wrap(mkApp("pure_"+sanitize(c.Pkg+"_"+strings.TrimPrefix(c.Key, "interface ")), e.sortOf(rt), as...), rt)
+		} else {
+			v = e.freshValue(fmt.Sprintf("%s.r%d", sanitize(c.Key), i), rt, st)
+		}
 		switch r := v.(type) {
 		case VStream:
 			st.owned[r.ID.String()] = callee + " result at " + where
@@ -898,6 +926,25 @@ func (e *Engine) capturedMutatedRefs(lit *ast.FuncLit, st *State) []VTerm {
 	return out
 }
 
+// does the spec expression mention one of the names (or old)?
+func specMentions(x *SExpr, names map[string]bool) bool {
+	if x == nil {
+		return false
+	}
+	if x.Kind == "old" {
+		return true
+	}
+	if x.Kind == "ident" && names[x.Val] {
+		return true
+	}
+	for _, a := range x.Args {
+		if specMentions(a, names) {
+			return true
+		}
+	}
+	return false
+}
+
 func (e *Engine) handleClosureArg(lit *ast.FuncLit, fv VFunc, st *State, where string) {
 	ord := e.litOrdinal(lit)
 	captured := e.capturedAssigned(lit)
@@ -955,6 +1002,7 @@ func (e *Engine) handleClosureArg(lit *ast.FuncLit, fv VFunc, st *State, where s
 				step.vars[obj] = av
 			}
 			argNames[fmt.Sprintf("arg%d", i)] = av
+			argNames[n.Name] = av
 			i++
 		}
 	}
@@ -1047,6 +1095,35 @@ func (e *Engine) handleClosureArg(lit *ast.FuncLit, fv VFunc, st *State, where s
 	}
 	for _, r := range mrefs {
 		e.havocFields(st, r)
+	}
+	// per-call postconditions that do not mention captured state hold for every call: export them
+	if hasRet {
+		capNames := map[string]bool{}
+		for _, o := range captured {
+			capNames[o.Name()] = true
+		}
+		for _, cl := range ens {
+			if specMentions(cl.Expr, capNames) {
+				continue
+			}
+			kb := mkVar(fmt.Sprintf("k$%d", e.nfresh+1), SInt)
+			e.nfresh++
+			env := withCalls(st, kb, nil)
+			n := env.names
+			ai := 0
+			for _, f := range lit.Type.Params.List {
+				for _, pn := range f.Names {
+					n[fmt.Sprintf("arg%d", ai)] = e.fnArg(fv, ai, kb)
+					n[pn.Name] = e.fnArg(fv, ai, kb)
+					ai++
+				}
+			}
+			n["ret"] = e.fnRet(fv, kb)
+			env.noScope = false
+			t := term(e.evalSpec(cl.Expr, env))
+			guard := mkAnd(mkCmp("<=", mkInt(0), kb), mkCmp("<", kb, ncalls))
+			st.assume(mkForall([]*Term{kb}, mkImplies(guard, t), [][]*Term{{term(e.fnRet(fv, kb))}}))
+		}
 	}
 	// results: ret(k) == yields[calls:=k]
 	if hasRet {
